@@ -22,6 +22,7 @@ pub fn prop() -> HistProp {
         nontrivial,
         quick_cases: 30000,
         thorough_cases: 600000,
+        pressure_cases: (0, 0),
         assumptions: vec!["one handle per file at a time (documented precondition)", "files stay below 4 clusters in this tier; the 4 GiB end of the range is covered by C20"],
     }
 }
